@@ -57,6 +57,18 @@ type gen struct {
 	controlled [][2]int           // branch condition node, placed instruction id it controls
 	precise    map[int]bool       // nodes whose length shadow is fed by explicit rules (no fallback node -> length)
 	ourCall    map[ssa.Value]bool // calls whose callees are inside the analysed packages
+	// call-site sensitivity for scalar leaf helpers (no calls, no stores, scalar parameters and results): each static
+	// call gets its own copy of the helper's nodes, so data passed at one call site does not come back at another
+	ctx        int
+	ctxFn      *ssa.Function
+	nextCtx    int
+	callCtx    map[ssa.Instruction]int
+	cloneMemo  map[*ssa.Function]bool
+	inblkStart int
+}
+type ctxKey struct {
+	v   ssa.Value
+	ctx int
 }
 type cmp struct {
 	id   int
@@ -65,8 +77,76 @@ type cmp struct {
 }
 type ifrec struct{ fn, blk, cond int }
 type retKey struct {
-	fn *ssa.Function
-	i  int
+	fn  *ssa.Function
+	i   int
+	ctx int
+}
+
+// ret: the node of result i of fn, in the copy being built when fn is the helper being copied
+func (g *gen) ret(fn *ssa.Function, i int) int {
+	c := 0
+	if g.ctx != 0 && fn == g.ctxFn {
+		c = g.ctx
+	}
+	return g.retIn(fn, i, c)
+}
+func (g *gen) retIn(fn *ssa.Function, i, c int) int {
+	d := fmt.Sprintf("%s result %d", fn.String(), i)
+	if c != 0 {
+		d += fmt.Sprintf(" [copy %d]", c)
+	}
+	return g.node(retKey{fn, i, c}, d)
+}
+
+func scalarType(t types.Type) bool {
+	b, ok := t.Underlying().(*types.Basic)
+	return ok && b.Info()&(types.IsInteger|types.IsBoolean|types.IsFloat) != 0
+}
+
+// cloneable: a helper inside the analysed packages that only computes scalars from scalars
+func (g *gen) cloneable(fn *ssa.Function) bool {
+	if v, ok := g.cloneMemo[fn]; ok {
+		return v
+	}
+	ok := g.ours[fn] && fn.Blocks != nil && len(fn.FreeVars) == 0 && fn.Parent() == nil && len(fn.AnonFuncs) == 0
+	if ok {
+		for _, p := range fn.Params {
+			ok = ok && scalarType(p.Type())
+		}
+		rs := fn.Signature.Results()
+		for i := 0; i < rs.Len(); i++ {
+			ok = ok && scalarType(rs.At(i).Type())
+		}
+	}
+	if ok {
+		for _, b := range fn.Blocks {
+			for _, in := range b.Instrs {
+				switch x := in.(type) {
+				case *ssa.Call:
+					if _, isB := x.Call.Value.(*ssa.Builtin); !isB {
+						ok = false
+					}
+				case *ssa.Go, *ssa.Defer, *ssa.Store, *ssa.MakeClosure, *ssa.MapUpdate, *ssa.Send, *ssa.Alloc, *ssa.MakeSlice, *ssa.MakeMap, *ssa.MakeChan, *ssa.Select:
+					ok = false
+				}
+			}
+		}
+	}
+	g.cloneMemo[fn] = ok
+	return ok
+}
+
+// ctxFor: the copy number of the helper called by this instruction (0: the call shares the helper's one instance)
+func (g *gen) ctxFor(in ssa.Instruction, callee *ssa.Function) int {
+	if g.ctx != 0 || !g.cloneable(callee) {
+		return 0
+	}
+	if c, ok := g.callCtx[in]; ok {
+		return c
+	}
+	g.nextCtx++
+	g.callCtx[in] = g.nextCtx
+	return g.nextCtx
 }
 
 func (g *gen) node(k any, desc string) int {
@@ -99,6 +179,9 @@ func (g *gen) val(v ssa.Value) int {
 	fn := ""
 	if p := v.Parent(); p != nil {
 		fn = p.String() + " "
+		if g.ctx != 0 && p == g.ctxFn {
+			return g.node(ctxKey{v, g.ctx}, fmt.Sprintf("%s%s @%s [copy %d]", fn, v.Name(), g.pos(v.Pos()), g.ctx))
+		}
 	}
 	return g.node(v, fn+v.Name()+" @"+g.pos(v.Pos()))
 }
@@ -249,6 +332,10 @@ func (g *gen) doFunc(fn *ssa.Function) {
 	fid := g.fnIDs[fn]
 	exported := fn.Object() != nil && fn.Object().Exported() && fn.Parent() == nil && fn.Signature.Recv() == nil && fn.Pkg != nil && fn.Pkg.Pkg.Path() == root
 	expAny := fn.Object() != nil && fn.Object().Exported() && fn.Parent() == nil && fn.Pkg != nil && fn.Pkg.Pkg.Path() == root && !strings.HasPrefix(fn.Name(), "Verif")
+	if g.ctx != 0 {
+		exported, expAny = false, false
+	}
+	start := len(g.inblk)
 	for _, p := range fn.Params {
 		id := g.val(p)
 		g.exact(id)
@@ -270,6 +357,7 @@ func (g *gen) doFunc(fn *ssa.Function) {
 			g.doInstr(fn, fid, b, in)
 		}
 	}
+	g.inblkStart = start
 	g.controlDeps(fn, fid)
 }
 
@@ -384,7 +472,7 @@ func (g *gen) controlDeps(fn *ssa.Function, fid int) {
 				}
 			case *ssa.Return:
 				for i := range x.Results {
-					rn := g.node(retKey{fn, i}, fmt.Sprintf("%s result %d", fn.String(), i))
+					rn := g.ret(fn, i)
 					for _, c := range dependsOn(b.Index) {
 						g.implicit = append(g.implicit, [2]int{c, rn})
 						if hasLength(x.Results[i].Type()) {
@@ -395,7 +483,7 @@ func (g *gen) controlDeps(fn *ssa.Function, fid int) {
 			}
 		}
 	}
-	for _, pl := range g.inblk {
+	for _, pl := range g.inblk[g.inblkStart:] {
 		if pl[2] == fid {
 			for _, c := range dependsOn(pl[3] - 1) {
 				g.controlled = append(g.controlled, [2]int{c, pl[1]})
@@ -448,14 +536,27 @@ func (g *gen) callCommon(fn *ssa.Function, fid int, b *ssa.BasicBlock, in ssa.In
 		g.inblk = append(g.inblk, [4]int{3, iid, fid, b.Index + 1})
 		g.callees = append(g.callees, [2]int{iid, g.fnIDs[callee]})
 		ps := callee.Params
-		for i, a := range args {
+		cc := 0
+		if len(callees) == 1 && c.StaticCallee() == callee {
+			cc = g.ctxFor(in, callee)
+		}
+		var an []int
+		for _, a := range args {
+			an = append(an, g.val(a))
+		}
+		if cc != 0 { // build this call's own copy of the helper
+			g.ctx, g.ctxFn = cc, callee
+			g.doFunc(callee)
+		}
+		for i := range args {
 			if i < len(ps) {
-				g.move(g.val(a), g.val(ps[i]))
+				g.move(an[i], g.val(ps[i]))
 			}
 		}
+		g.ctx, g.ctxFn = 0, nil
 		nres := callee.Signature.Results().Len()
 		for i := 0; i < nres; i++ {
-			g.move(g.exact(g.node(retKey{callee, i}, fmt.Sprintf("%s result %d", callee.String(), i))), g.exact(g.tupleSlot(result, i, nres)))
+			g.move(g.exact(g.retIn(callee, i, cc)), g.exact(g.tupleSlot(result, i, nres)))
 		}
 	}
 	if len(callees) > 0 {
@@ -534,7 +635,7 @@ func (g *gen) tupleSlot(result ssa.Value, i, n int) int {
 	if n == 1 {
 		return g.val(result)
 	}
-	return g.node(retKey{nil, g.val(result)*16 + i}, fmt.Sprintf("component %d of %s", i, g.names[g.val(result)-1]))
+	return g.node(retKey{nil, g.val(result)*16 + i, 0}, fmt.Sprintf("component %d of %s", i, g.names[g.val(result)-1]))
 }
 
 func (g *gen) doInstr(fn *ssa.Function, fid int, b *ssa.BasicBlock, in ssa.Instruction) {
@@ -664,7 +765,7 @@ func (g *gen) doInstr(fn *ssa.Function, fid int, b *ssa.BasicBlock, in ssa.Instr
 		}
 	case *ssa.Return:
 		for i, r := range x.Results {
-			rn := g.exact(g.node(retKey{fn, i}, fmt.Sprintf("%s result %d", fn.String(), i)))
+			rn := g.exact(g.ret(fn, i))
 			g.move(g.val(r), rn)
 		}
 	case *ssa.If:
@@ -761,7 +862,7 @@ func (g *gen) aliasInstr(fn *ssa.Function, fid int, in ssa.Instruction) {
 		g.aedge(g.val(x.X), g.val(x.Chan))
 	case *ssa.Return:
 		for i, r := range x.Results {
-			rn := g.node(retKey{fn, i}, fmt.Sprintf("%s result %d", fn.String(), i))
+			rn := g.ret(fn, i)
 			if viewType(r.Type()) {
 				g.derive(g.val(r), rn)
 			}
@@ -806,7 +907,7 @@ func (g *gen) aliasInstr(fn *ssa.Function, fid int, in ssa.Instruction) {
 				}
 				nres := sc.Signature.Results().Len()
 				for i := 0; i < nres; i++ {
-					g.derive(g.node(retKey{sc, i}, fmt.Sprintf("%s result %d", sc.String(), i)), g.tupleSlot(result, i, nres))
+					g.derive(g.retIn(sc, i, g.ctxFor(in, sc)), g.tupleSlot(result, i, nres))
 				}
 				return
 			}
@@ -821,7 +922,7 @@ func (g *gen) aliasInstr(fn *ssa.Function, fid int, in ssa.Instruction) {
 						}
 					}
 					for i := 0; i < f.Signature.Results().Len(); i++ {
-						g.derive(g.node(retKey{f, i}, fmt.Sprintf("%s result %d", f.String(), i)), g.tupleSlot(result, i, f.Signature.Results().Len()))
+						g.derive(g.retIn(f, i, 0), g.tupleSlot(result, i, f.Signature.Results().Len()))
 					}
 				}
 			}
@@ -836,7 +937,7 @@ func (g *gen) aliasInstr(fn *ssa.Function, fid int, in ssa.Instruction) {
 						}
 					}
 					for i := 0; i < f.Signature.Results().Len(); i++ {
-						g.derive(g.node(retKey{f, i}, fmt.Sprintf("%s result %d", f.String(), i)), g.tupleSlot(result, i, f.Signature.Results().Len()))
+						g.derive(g.retIn(f, i, 0), g.tupleSlot(result, i, f.Signature.Results().Len()))
 					}
 				}
 			}
@@ -937,7 +1038,7 @@ func main() {
 	}
 	prog, _ := ssautil.AllPackages(pkgs, ssa.InstantiateGenerics)
 	prog.Build()
-	g := &gen{prog: prog, fset: fset, ids: map[any]int{}, fnIDs: map[*ssa.Function]int{}, ours: map[*ssa.Function]bool{}, precise: map[int]bool{}, ourCall: map[ssa.Value]bool{}}
+	g := &gen{prog: prog, fset: fset, ids: map[any]int{}, fnIDs: map[*ssa.Function]int{}, ours: map[*ssa.Function]bool{}, precise: map[int]bool{}, ourCall: map[ssa.Value]bool{}, callCtx: map[ssa.Instruction]int{}, cloneMemo: map[*ssa.Function]bool{}}
 	var fns []*ssa.Function
 	for fn := range ssautil.AllFunctions(prog) {
 		if isOurs(fn) && fn.Blocks != nil && !strings.Contains(fn.String(), "/docs.") {
